@@ -362,6 +362,54 @@ int main(void)
 			for (int i = 0; i < nevt; i++) { wrstr(evts[i].map); wrblob(evts[i].data, evts[i].len); }
 			free(n); free(f);
 			break; }
+		case 'S': case 'K': {
+			/* S: scripted sequence: N x (clock u64, skb len u32) on one frame -> N verdict bytes.
+			 * K: backlogged source: offers size[idx] at time t; admitted -> next packet at the same instant,
+			 *    dropped -> retry after gap ns; until t >= end or maxn offers -> trace of (t,len,verdict). */
+			u32 nl, fl; u8 *n = rdblob(&nl);
+			u32 plc = rd32();
+			u8 *f = rdblob(&fl);
+			struct vprog *p = NULL;
+			for (int i = 0; i < nprogs; i++) if (!strcmp(progs[i].name, (char *)n)) p = &progs[i];
+			if (!p || p->kind != 1 || fl > MAX_FRAME) { fprintf(stderr, "HARNESS: bad sequence target\n"); return 4; }
+			placement = plc; cur_arena = 0;
+			mprotect(arena[1] + PG, PG * DATA_PAGES, PROT_NONE);
+			u8 *end; u8 *d = place(0, plc, f, fl, fl, &end);
+			log_on = 0;
+			struct __sk_buff sk; 
+			if (op == 'S') {
+				u32 cnt = rd32();
+				u8 *verd = malloc(cnt ? cnt : 1);
+				for (u32 i = 0; i < cnt; i++) {
+					u64 t; u32 len; if (!rd(&t, 8) || !rd(&len, 4)) exit(0);
+					clock_script[0] = t; nclock = 1; clock_pos = 0;
+					memset(&sk, 0, sizeof(sk));
+					sk.data = (u64)(uintptr_t)d; sk.data_end = (u64)(uintptr_t)end; sk.len = len;
+					verd[i] = (u8)p->fn(&sk);
+				}
+				wr32(cnt); wr(verd, cnt); free(verd);
+			} else {
+				u64 t, tend, gap; u32 maxn, nsz;
+				if (!rd(&t, 8) || !rd(&tend, 8) || !rd(&gap, 8)) exit(0);
+				maxn = rd32(); nsz = rd32();
+				u32 *sz = malloc(4 * (nsz ? nsz : 1));
+				for (u32 i = 0; i < nsz; i++) sz[i] = rd32();
+				u64 *tt = malloc(8 * (maxn ? maxn : 1)); u32 *ll = malloc(4 * (maxn ? maxn : 1)); u8 *vv = malloc(maxn ? maxn : 1);
+				u32 cnt = 0, idx = 0;
+				while (cnt < maxn && t < tend) {
+					clock_script[0] = t; nclock = 1; clock_pos = 0;
+					memset(&sk, 0, sizeof(sk));
+					sk.data = (u64)(uintptr_t)d; sk.data_end = (u64)(uintptr_t)end; sk.len = sz[idx % nsz];
+					int v = p->fn(&sk);
+					tt[cnt] = t; ll[cnt] = sz[idx % nsz]; vv[cnt] = (u8)v; cnt++;
+					if (v == 0) idx++; else { if (t + gap < t) break; t += gap; }
+				}
+				wr32(cnt);
+				for (u32 i = 0; i < cnt; i++) { wr(&tt[i], 8); wr(&ll[i], 4); wr(&vv[i], 1); }
+				free(sz); free(tt); free(ll); free(vv);
+			}
+			free(n); free(f);
+			break; }
 		default:
 			fprintf(stderr, "HARNESS: bad op %d\n", op);
 			return 4;
